@@ -95,7 +95,7 @@ func (p *Peers) Pop() *WebRTCPeer {
 			continue
 		}
 		// Set to use the same rate-limited traffic logger to keep consistency.
-		snowflake.bytesLogger = p.bytesLogger
+		snowflake.setBytesLogger(p.bytesLogger)
 		return snowflake
 	}
 }
